@@ -239,4 +239,23 @@ theorem noParen_left_regroups (a b c : DExpr) (ha : WF a) (hb : WF b) (hc : WF c
   have := parse_paren (.cond .add a (.cond .mul b c)) hw (by simp [toJava, asQName])
   simpa [printDropLeft, printBare, print, toJava] using this
 
+/-! ## what a printed constant denotes -/
+
+/-- the integer a literal, or a unary minus applied to a literal (JLS 3.10.1: the only way to write a negative
+    number, and the only place where 2147483648 / 9223372036854775808L may occur), denotes; with its `L` flag -/
+def litValue : JExpr → Option (Int × Bool)
+  | .intLit n => some (n, false)
+  | .longLit n => some (n, true)
+  | .unary .neg (.intLit n) => some (-(n : Int), false)
+  | .unary .neg (.longLit n) => some (-(n : Int), true)
+  | _ => none
+
+/-- EVERY constant (not a sample): the lexemes the Writer prints for it re-parse to a literal or a negated literal
+    that denotes exactly the constant, `L`-suffixed iff the constant is a long -/
+theorem const_denotes (v : Int) (long : Bool) :
+    parse (print (.const v long)) = some (toJava (.const v long)) ∧
+    litValue (toJava (.const v long)) = some (v, long) := by
+  refine ⟨print_parse_wf _ rfl, ?_⟩
+  by_cases hv : v < 0 <;> cases long <;> simp [toJava, constJava, hv, litValue] <;> omega
+
 end AgVerif.JExpr
